@@ -669,6 +669,7 @@ def check_c07(rep, tier, seed, wd, replay):
     files = [f for f in files if len(f["file"]) <= maxlen and (f["g"]["chunks"] or any(c[0] == "A" for c in f["calls"]))][:nfiles]
     cases = []
     budget = 6000 if tier == "quick" else 200000
+    natt = 0
     for fi, f in enumerate(files):
         data = f["file"]
         try:
@@ -683,16 +684,20 @@ def check_c07(rep, tier, seed, wd, replay):
             pay_lo = ch["offset"] + ch["length"] - ch["csize"]
             pay_hi = ch["offset"] + ch["length"]
             for desc, nb in flip_variants(r, data, pay_lo, pay_hi, tier):
-                if len(cases) < budget:
+                if len(cases) - natt < budget:
                     cases.append({"id": "%s_k%d_%s" % (f["id"], k, desc), "file": nb, "lopts": lo, "base": f, "chunk": k, "kind": "chunk",
                                   "single_byte": desc.startswith("flip"), "comp": ch["compression"], "crc": ch["crc"], "n_inner": ch["n_inner"]})
         for k, a in enumerate(d["attachments"]):
-            # attachment content: fields and data (not the record length prefix, not the crc itself)
+            # attachment content: fields and data (not the record length prefix, not the crc itself); attachments are few and
+            # small, so they have a budget of their own (the chunk flips of the first files would otherwise use all of it) and
+            # every damaged attachment is read with both legal orders of the two CRC accessors
             lo_a, hi_a = a["offset"] + 9, a["offset"] + a["length"] - 4
             for desc, nb in flip_variants(r, data, lo_a, hi_a, "quick"):
-                if len(cases) < budget and desc.startswith("flip"):
-                    cases.append({"id": "%s_a%d_%s" % (f["id"], k, desc), "file": nb, "lopts": lo, "base": f, "att": k, "kind": "att",
-                                  "pos": int(desc[5:].split(".")[0]) - lo_a, "alen": (len(a["name"]), len(a["media_type"]))})
+                if natt < budget // 3 and desc.startswith("flip"):
+                    for cbo in ("full", "fullrev"):
+                        natt += 1
+                        cases.append({"id": "%s_a%d_%s_%s" % (f["id"], k, desc, cbo), "file": nb, "lopts": dict(lo, cb=cbo), "base": f, "att": k, "kind": "att",
+                                      "pos": int(desc[5:].split(".")[0]) - lo_a, "alen": (len(a["name"]), len(a["media_type"]))})
     go, model, nd = lex_corr(rep, cases, wd, "c07")
     stats = {"chunk_damage": 0, "att_damage": 0, "detected": 0, "unchanged": 0, "uncompressed_single_byte": 0}
     for c in cases:
